@@ -33,6 +33,13 @@ func planC02(c *Ctx) epochPlan {
 	pl.scenarios = append(pl.scenarios,
 		EpochScenario{Seed: "randsp", Cfg: 3, Fit: 6, Policy: "R2", Mode: "perspecies", Epochs: 8},
 		EpochScenario{Seed: "randsp", Cfg: 0, Fit: 6, Policy: "A", Mode: "whole", Epochs: 6})
+	// four sizeable, old, improving species and ten babies to steal: the stolen pool is handed to the
+	// three best species in blocks and what is left goes to the species ranked fourth and lower
+	for _, pol := range []string{"M", "A", "R1"} {
+		for fi, mode := range []string{"whole", "phase"} {
+			pl.scenarios = append(pl.scenarios, EpochScenario{Seed: "hb6", Cfg: 10, Fit: 2 + 3*fi, Policy: pol, Mode: mode, Epochs: 3})
+		}
+	}
 	return pl
 }
 
